@@ -110,7 +110,8 @@ LOOKALIKE = {
                     "a_b1", "a-1", "a--1", "a.b", "a.b1.", "a.b1-"],
     "big-tail": ["n33554431", "n33554432", "n33554433", "n033554433", "n3355443", "n335544330", "m33554433",
                  "n33554433x", "n33554434", "n4294967296", "n4294967297", "n18446744073709551615x"],
-    "unnumbered": ["mgmt", "mgmt1", "mgmt2", "mgmt3", "login", "login7", "mgm", "mgmt-", "mgmtx", "logi", "login07"],
+    "unnumbered": ["mgmt", "mgmt1", "mgmt2", "mgmt3", "login", "login7", "mgm", "mgmt-", "mgmtx", "logi", "login07", "Mgmt",
+                   "LOGIN"],
 }
 
 # the same hosts written as ranges where the family allows it (what the user would type)
@@ -120,7 +121,7 @@ RANGED = {
     "all-digit": "[0-1],00,01,[9-11],010,100,011,1-1,1.1",
     "big-tail": "n[33554431-33554434],n033554433,n3355443,n335544330,m33554433,n33554433x,n[4294967296-4294967297],"
                 "n18446744073709551615x",
-    "unnumbered": "mgmt,mgmt[1-3],login,login7,mgm,mgmt-,mgmtx,logi,login07",
+    "unnumbered": "mgmt,mgmt[1-3],login,login7,mgm,mgmt-,mgmtx,logi,login07,Mgmt,LOGIN",
 }
 
 
@@ -282,6 +283,24 @@ def systematic(Case, cwd, thorough=False):
         mk.add("regex", [("tgt", rt), ("keep", a), ("drop", b)], "sep")
         mk.add("regex", [("drop", b), ("keep", a), ("tgt", rt)], "one")
         mk.add("regex", [("keep", a), ("keep", b), ("tgt", rt)], "dash")
+    # every position of a range removed by a filter (the iterator stands inside the record hostlist_remove changes)
+    pt = "n[1-5],m,n[7-8]"
+    for i, p in enumerate(["1$", "2$", "3$", "4$", "5$", "[12]$", "[23]$", "[45]$", "[135]$", "[24]$", "[1-5]$", "^n", "^m",
+                           "[578]$", "[1-7]$", "8$"]):
+        mk.add("regex", [("tgt", pt), ("drop", p)], ["sep", "one"][i % 2], note="position")
+        mk.add("regex", [("tgt", pt), ("keep", p)], ["dash", "bare"][i % 2], note="position")
+    # ---------------------------------------------------------------- names with a suffix behind the bracket
+    st = "foo[1-3]-ib,foo[1-3],foo[1-3]-ib0,foo[1-3]-ib"
+    for i, x in enumerate(["foo2-ib", "foo2", "foo[1-2]-ib", "foo2-ib0", "foo[2-3]-ib[0]", "foo[1-3]-i", "foo[1-3]-ib00",
+                           "foo2-IB", "foo[1-3]", "foo[1-3]-ib[0-1]"]):
+        mk.add("suffix", [("tgt", st), ("xcl", x)], ["sep", "dash", "one"][i % 3])
+    f = mk.fname("x")
+    mk.add("suffix", [("tgt", st), ("xfile", f)], "sep", files={f: ["foo[1-2]-ib", "foo3-ib0"]})
+    # ---------------------------------------------------------------- empty pieces: leading, doubled, trailing commas
+    mk.add("source", [("tgt", "foo[1-3]"), ("tgt", "bar"), ("xcl", "foo2")], opts=[("-w", ",foo[1-3],,bar,"), ("-x", ",,foo2,")],
+           note="empty-pieces")
+    mk.add("source", [("tgt", "foo[1,3]"), ("xcl", "foo[3,5]"), ("drop", "r$"), ("tgt", "bar")],
+           opts=[("-w", "foo[1,3],,-foo[3,5],,,-/r$/,bar,,")], note="empty-pieces")
     # ---------------------------------------------------------------- host number 0 inside an exclusion
     zt = "foo[0-6],alpha,node[0-2],node00,beta,n[00-03]"
     for x in ["foo[5,0]", "foo[0,5]", "foo[0-2,5]", "foo[5,0-2]", "alpha,node0", "node0,alpha", "foo[3,0],node[2,0],beta",
